@@ -6,13 +6,32 @@ OPS = ["add", "sub", "mul", "div", "add_f", "sub_f", "mul_f", "div_f", "neg", "n
        "product", "mul_add", "from_f", "zero", "one"]
 
 
+def forms_run():
+    return run_tlc("Forms.tla", cfg(invariants=["TableSane", "ExportForms"]), "forms", workers=1, timeout=300)
+
+
 def run(tier):
     kinds = KINDS_QUICK if tier == "quick" else KINDS_THOROUGH
-    chk, _ = machine_check("C08", tier, "OpsForms", OPS, kinds, ["FormsAgree"], None,
+    chk, extra = machine_check("C08", tier, "OpsForms", OPS, kinds, ["FormsAgree"], None,
                            "replay of TLC behaviour (form)",
                            "one case = (concrete type, operation, syntactic form); TLC checks FormsAgree (every form equals "
                            "the canonical dual-dual operation with the scalar lifted) on every transition and the harness "
-                           "replays every behaviour bit-exactly through the form named in the event")
+                           "replays every behaviour bit-exactly through the form named in the event",
+                           extra_jobs=[forms_run])
+    fm = extra[0]
+    chk.add_tlc(fm, "table of the 14 FromPrimitive entry points x boundary arguments (+-2^e + o up to 2^128 - 1) and the 16 "
+                    "FloatConst constants")
+    if fm.violated:
+        chk.model_violation(fm, "Forms")
+    else:
+        rep = run_harness("hcore", ["forms", fm.out_path])
+        chk.cov["evaluations"] += rep["checks"]
+        chk.cov["conversion_entry_points_per_type"] = rep["entry_points_per_type"]
+        chk.cov["conversion_types"] = rep["types"]
+        for v in rep["viol"]:
+            chk.violation("conversion %s on %s: %s" % (v["entry"], v["key"], v["why"]), {"kind": "conversion", **v})
+        if rep["entry_points_per_type"] < 30 or rep["types"] < 40:
+            raise ToolError("vacuity: conversion table %s" % rep)
     forms = sorted({c.split("|", 1)[1] for c in chk.distinct})
     chk.cov["forms_exercised"] = forms
     return chk.finish(extra={"exhaustive": True})
